@@ -157,6 +157,15 @@ func Yield() { time.Sleep(20 * time.Millisecond) }
 // given assertion id) or off (""); natively the replay binary of a package with *_Race harnesses is built with -race.
 func RaceDetect(assertID string) {}
 
+// TempDir: a fresh directory for on-disk state (natively a temporary directory; under the engine only a name - the
+// file system is not modelled).
+func TempDir(name string) string {
+	if d, err := ioutil.TempDir("", "zzverif-"+name); err == nil {
+		return d
+	}
+	return os.TempDir()
+}
+
 // SetEnv / GetEnv: environment answers chosen by the harness (e.g. whether the node's tx index contains the tx).
 var env = map[string]bool{}
 
